@@ -17,6 +17,7 @@ func init() {
 			"PF-NILCLOSE: deferred cleanups of values returned with an error are registered under err == nil",
 			"PV-WHOLE: every successful evaluation returns a typed response",
 			"PV-PAIR buildLineFilter returns a freshly built filter or an error (no silent no-op for an invalid stage)",
+			"PV-GUARD wrappers return false only where their source did (so Err() explains every end)",
 		},
 		NotDecided: []string{"that Close of the Docker client's body releases the connection", "double close", "context cancellation"},
 		Rules: func(r *Run) {
@@ -32,6 +33,7 @@ func init() {
 			rulePFDeferNil(r, []string{enginePkg, metricPkg, dockerlogPkg, cmdPkg})
 			ruleResultKindSet(r)
 			ruleLineFilterBuilder(r) // an invalid stage is an error, not a no-op
+			ruleIterEndsWithSource(r)
 		},
 	})
 }
